@@ -137,9 +137,11 @@ theorem C08_reviewed_goroutines_exist :
 
 open Bxh.Gen in
 /-- **the recover guards are in place, and each is the first statement of its function** (nothing — no look-up, no
-dereference of a field of the transaction — runs before the guard stands) -/
+dereference of a field of the transaction — runs before the guard stands), and each of them turns the panic into the function's
+ERROR RESULT (the deferred function assigns to a named result: a guard that sets a local would let the function return nil, nil and
+the executor would write a SUCCESS receipt for a transaction that was never processed) -/
 theorem C08_recover_guards_in_place :
-    requiredGuards.all (fun r => recoverGuards.any (fun g => g.pkg == r.1 && g.func == r.2 && g.first)) = true := by decide +kernel
+    requiredGuards.all (fun r => recoverGuards.any (fun g => g.pkg == r.1 && g.func == r.2 && g.first && g.setsResult)) = true := by decide +kernel
 
 open Bxh.Gen in
 /-- the contracts package starts no goroutine: contract code runs on the executor's goroutine, inside the bolt VM's guard -/
